@@ -55,6 +55,22 @@ Theorem c04_session_flush_keeps_pending :
 Proof. exact flush_payloads. Qed.
 Print Assumptions c04_session_flush_keeps_pending.
 
+(* Close: "try best to send all queued messages" is one more full flush of the core, bound by the
+   same admission rule as every other flush - in particular after a timeout loss (cwnd = 1, the
+   oldest segment outstanding) it numbers nothing new; the pending payloads are untouched. *)
+Theorem c04_session_close :
+  forall s now s1 o,
+    inv (core s) -> close_full s now = Ok (s1, o) ->
+    let k := core s in
+    let cw := if nocwnd k =? 0 then Z.min (cwnd k) (Z.min (snd_wnd k) (rmt_wnd k))
+              else Z.min (snd_wnd k) (rmt_wnd k) in
+    bufptr s1 = bufptr s /\
+    (qlen (snd_buf (core s1)) > qlen (snd_buf k) -> qlen (snd_buf (core s1)) <= cw) /\
+    Forall (fun sg => s_xmit sg = 1) (skipn (length (snd_buf k)) (snd_buf (core s1))) /\
+    snd_payloads (core s1) = snd_payloads k.
+Proof. exact close_admission_thm. Qed.
+Print Assumptions c04_session_close.
+
 (* ---- non-vacuity: send window 3, mss 6 ---- *)
 (* admitted at WaitSnd = 0 < 3; 4 = 0 + chunk_total segments pending afterwards (> window:
    flushed, three datagrams); the next write blocks and returns the same session *)
